@@ -48,7 +48,10 @@ fn op_strategy(nh: usize) -> BoxedStrategy<Op> {
         1 => 0usize..=(255 * nh + 64),
     ];
     prop_oneof![
-        5 => (0u8..2, gen::bytes(300), len).prop_map(|(side, ctx, len)| Op::Export { side, ctx, len }),
+        5 => (0u8..2, prop_oneof![
+                25 => gen::bytes(300),
+                1 => (proptest::sample::select(vec![65535usize, 65536, 65537, 70000]), 0u8..9, any::<u64>()).prop_map(|(l, k, s)| Bytes(gen::fill(l, k, s))),
+            ], len).prop_map(|(side, ctx, len)| Op::Export { side, ctx, len }),
         3 => gen::msg(200).prop_map(Op::Seal),
         2 => Just(Op::OpenNext),
         1 => any::<u16>().prop_map(|flip| Op::OpenTampered { flip }),
@@ -254,7 +257,7 @@ impl Property for P {
         "C11"
     }
     fn rule(&self) -> String {
-        "Generated: (suite of 48, mode, session) with histories interleaving exports on either side (L from boundaries {0,1,Nh+-1,255Nh+-1,65535+-1,100000} and uniform) with seals, opens, rejected deliveries, exhaustion of both contexts at 2^64-1 (hook), and panicking seal/open attempts on export-only suites. \
+        "Generated: (suite of 48, mode, session) with histories interleaving exports on either side (exporter contexts up to 300 bytes and, rarely, 65535..70000 bytes; L from boundaries {0,1,Nh+-1,255Nh+-1,65535+-1,100000} and uniform) with seals, opens, rejected deliveries, exhaustion of both contexts at 2^64-1 (hook), and panicking seal/open attempts on export-only suites. \
          Swept: 48x4 cells; every L in 0..=400 and within 40 of 255*Nh and of 2^16 for each KDF (thorough: every L in 0..=66000 per KDF). \
          Oracle: reference LabeledExpand(exporter_secret_ref, \"sec\", ctx, L); Ok iff L<=255*Nh else KdfOutputTooLong; repeatable; sender==receiver. \
          Non-trivial: an export after traffic on the same context, or L within 2 of a boundary, or an L-range sweep."
@@ -292,6 +295,13 @@ impl Property for P {
             ops.push(Op::OpenReplay { which: 0 });
             for (i, l) in boundary_lens(nh).into_iter().enumerate() {
                 ops.push(Op::Export { side: (i % 2) as u8, ctx: Bytes(gen::fill(i, 5, 3)), len: l });
+            }
+            // exporter contexts around 2^16 bytes, both roles
+            if m == 0 || s.aead == r::AeadId::Export {
+                for (i, cl) in [65535usize, 65536, 65537].into_iter().enumerate() {
+                    ops.push(Op::Export { side: (i % 2) as u8, ctx: Bytes(gen::fill(cl, 5, 9)), len: 16 });
+                    ops.push(Op::Export { side: ((i + 1) % 2) as u8, ctx: Bytes(gen::fill(cl, 5, 9)), len: 255 * nh + 1 });
+                }
             }
             ops.push(Op::Exhaust);
             ops.push(Op::Export { side: 0, ctx: Bytes(b"after".to_vec()), len: 32 });
